@@ -269,7 +269,7 @@ def url(r, escapes=True) -> dict:
         for _ in range(r.randint(1, 5)):
             x = r.random()
             if pk == "dots" and x < 0.4:
-                segs.append(r.choice([b".", b"..", b"%2e", b"%2E%2e", b".%2E"]))
+                segs.append(r.choice([b".", b"..", b"%2e", b"%2E%2e", b".%2E", b"%%32E%%32E", b"%%32e", b"%252e%252e"]))
             elif pk == "many-dotdot" and x < 0.7:
                 segs.append(b"..")
             elif pk == "empty-seg" and x < 0.3:
